@@ -1,4 +1,4 @@
-SPECIFICATION TSpec
+SPECIFICATION CSpec
 CONSTANTS
   HDR = 11
   BH = 257
@@ -7,7 +7,6 @@ CONSTANTS
   CHUNK = 48000
   MaxBlockSize = 7788
   TimeoutPerChunk = TRUE
-  SerErrorsFatal = TRUE
-  Streams = {}
-POSTCONDITION Accepted
-CHECK_DEADLOCK FALSE
+  SerErrorsFatal = FALSE
+  Streams <- StreamsConnProbe
+INVARIANTS CTypeOK ClosedOnRefusal
